@@ -924,6 +924,10 @@ def q9(model: Model, rep: Report):
     if "qubit_ids" in E.properties:
         fq = E.properties["qubit_ids"]
         v = Evaluator(model).value_of(fq, self_cls=E)
+        from ..sym import _plain_display
+        v = _plain_display(v)
+        while v[0] == "call" and v[1] in ("list", "tuple") and len(v[2]) == 1 and not v[3] and _plain_display(v[2][0])[0] in ("list", "tuple"):
+            v = (v[1],) + _plain_display(v[2][0])[1:]       # list(<tuple display>) / tuple(<list display>) are the display
         ok = v[0] in ("list", "tuple") and sorted(map(show, v[1])) == sorted(map(show, (q0, q1))) and len(v[1]) == 2
         rep.check(ok, "C16.Q9", "EdgeIDObj.qubit_ids", fq.loc, found=show(v), required="[qubit_id0, qubit_id1]", what="an edge does not list exactly its two qubits", detail="qubit_ids")
     else:
